@@ -336,6 +336,15 @@ def generate(prop, ctx=None, write=True):
             out.append(f"theorem {tname} : FrameOK {sname} = {'true' if ok else 'false'} := by decide")
             obligations.append(dict(name=tname, cls=c.name, method=m, kind="frame", value=ok, leads=_dedupe(leads), size=count_items(sl), full_size=count_items(items),
                                     inner=has_inner(items)))
+            if prop == "C05" and m == "query":
+                # used by C06: a query that reads no fitted attribute of `self` before writing it in the same call is a
+                # function of the constructor parameters and the call arguments (no state cached between queries)
+                hok, _, hleads = abscheck.history_free(r["params"], sl)
+                hname = f"query_{lean_ident(c.name)}_historyFree"
+                for ld in hleads[:6]:
+                    out.append(f"-- lead: {ld['kind']} {ld['attr']}  {ld['file']}:{ld['line']}  {ld['text'][:90]}")
+                out.append(f"theorem {hname} : HistoryFree {sname} = {'true' if hok else 'false'} := by decide")
+                obligations.append(dict(name=hname, cls=c.name, method=m, kind="history-query", value=hok, leads=_dedupe(hleads)))
             if prop == "C13" and m == "fit":
                 hok, _, hleads = abscheck.history_free(r["params"], sl)
                 hname = f"fit_{lean_ident(c.name)}_historyFree"
@@ -382,6 +391,8 @@ def generate(prop, ctx=None, write=True):
             repaired_since_reference=[o["name"] for o in repaired],
         )
         for ob in flips:
+            if ob["kind"] == "history-query":
+                continue      # C06's business (harness/props/c06.py reads it from the returned obligations)
             where = "; ".join(f"{ld['kind']} {ld.get('attr') or ld.get('path') or ''} at {ld['file']}:{ld['line']}" for ld in ob["leads"][:3])
             ctx.broken.append(f"translator: obligation {ob['name']} no longer holds for the current source ({where})")
     try:
